@@ -1,6 +1,7 @@
 import MechVerif.Driver.C02
 import MechVerif.Driver.C06
 import MechVerif.Model.StrLit
+import MechVerif.Driver.C08S
 namespace MechVerif.Driver.S08
 open MechVerif.Prec MechVerif.Driver
 
@@ -75,6 +76,7 @@ def runC08 (fields : List String) (obs : String) : String × String × String :=
           | some (t, []) =>
             "F=" ++ hexOfText ((fmtT lits t ++ "\n").toList) ++ "|R=same|I=same|T=" ++ sexprT lits t ++ "|U=" ++ sexprT lits t
           | _ => "unparsed-formula"
+        else if cls == "syntax" then S08S.predict (more.headD "")
         else if cls == "string" then
           match parseStrSpec (more.headD "-") with
           | some gs =>
